@@ -14,8 +14,7 @@ def table_92():
         if not re.fullmatch(r'C\d\d', pid):
             continue
         txt = open(f).read()
-        extra = os.path.join(HERE, 'coq/theories/Props', pid + 'b.v')
-        if os.path.exists(extra):
+        for extra in sorted(glob.glob(os.path.join(HERE, 'coq/theories/Props', pid + '?.v'))):     # C01b, C08f, C09b..d, C12b/c ...
             txt += open(extra).read()
         th = re.findall(r'^\s*Theorem\s+(\w+)', txt, flags=re.M)
         ev = os.path.join(HERE, 'evidence', pid + '.json')
